@@ -1,3 +1,172 @@
-import Rtcp.Lemmas.Safe6
+/-
+  C06 — datagram decoding splits at length fields, is local, and is all-or-nothing.
+  A *frame* is a byte string that starts with a version-2 header whose length field equals its size in words − 1
+  (`Framed`). In the model a decoder only ever receives its own frame (capacity = length), so locality is by
+  construction here; against the Go code (cap > len) it is tied by the `udecp` correspondence (DESIGN §6 C06).
+-/
+import Rtcp.Lemmas.Dgram
 namespace Rtcp.C06
+open Rtcp Gen Out
+set_option linter.unusedSimpArgs false
+set_option linter.unusedVariables false
+
+def IsFrame (f : Bytes) : Prop := ∃ h, Framed f h
+
+/-- what one frame decodes to, as a function of that frame alone -/
+def decFrame (f : Bytes) : Out Packet := decKind (dispatch (get8 f 1) (get8 f 0 % 32)) f
+
+/-- frame by frame, in order, first failure wins -/
+def decFrames : List Bytes → Out (List Packet)
+  | [] => .ok []
+  | f :: fs => do
+    let p ← decFrame f
+    let ps ← decFrames fs
+    pure (p :: ps)
+
+theorem framed_hdr {f : Bytes} {h : Header} (hf : Framed f h) : h.type = get8 f 1 ∧ h.count = get8 f 0 % 32 := by
+  obtain ⟨⟨body, hb⟩, hc, ht, hl, hs⟩ := hf
+  have hd := Header.dec_bytes h body hc ht (by omega)
+  rw [← hb] at hd
+  have := Header.dec_ok_fields hd
+  exact ⟨this.2.2.2.2.1, this.2.2.2.2.2⟩
+
+theorem loop_frames (fs : List Bytes) (tail : Bytes) (h : ∀ f ∈ fs, IsFrame f) (gas : Nat) :
+    unmarshalLoop (gas + fs.length) (fs.flatten ++ tail) =
+      (decFrames fs >>= fun ps => unmarshalLoop gas tail >>= fun qs => .ok (ps ++ qs)) := by
+  induction fs with
+  | nil =>
+    simp only [List.length_nil, Nat.add_zero, List.flatten_nil, List.nil_append, decFrames, bind_ok]
+    cases unmarshalLoop gas tail <;> rfl
+  | cons f fs ih =>
+    obtain ⟨hd, hf⟩ := h f (by simp)
+    have hh := framed_hdr hf
+    have e : gas + (f :: fs).length = (gas + fs.length) + 1 := by simp; omega
+    rw [e, List.flatten_cons, List.append_assoc, unmarshalLoop_cons f _ hd hf, ih (fun g hg => h g (by simp [hg]))]
+    simp only [decFrames, decFrame, hh.1, hh.2]
+    cases decKind (dispatch (get8 f 1) (get8 f 0 % 32)) f with
+    | ok p =>
+      simp only [bind_ok]
+      cases decFrames fs with
+      | ok ps =>
+        simp only [bind_ok, pure_eq]
+        cases unmarshalLoop gas tail <;> rfl
+      | err => rfl
+      | panic => rfl
+      | diverge => rfl
+    | err => rfl
+    | panic => rfl
+    | diverge => rfl
+
+theorem flatten_len (fs : List Bytes) (h : ∀ f ∈ fs, IsFrame f) : fs.length * 4 ≤ fs.flatten.length := by
+  induction fs with
+  | nil => simp
+  | cons f fs ih =>
+    obtain ⟨hd, hf⟩ := h f (by simp)
+    have h1 := hf.size
+    have h2 := ih (fun g hg => h g (by simp [hg]))
+    rw [List.flatten_cons, List.length_append, List.length_cons]
+    omega
+
+/-- **one packet per frame, in order, each depending only on its own frame** -/
+theorem split (fs : List Bytes) (hne : fs ≠ []) (h : ∀ f ∈ fs, IsFrame f) : udec fs.flatten = decFrames fs := by
+  have hl := flatten_len fs h
+  have hgas : fs.flatten.length + 1 = (fs.flatten.length + 1 - fs.length) + fs.length := by omega
+  have := loop_frames fs [] h (fs.flatten.length + 1 - fs.length)
+  rw [List.append_nil, ← hgas] at this
+  unfold udec
+  rw [this]
+  have hg1 : unmarshalLoop (fs.flatten.length + 1 - fs.length) [] = .ok [] := by
+    have : fs.flatten.length + 1 - fs.length = (fs.flatten.length - fs.length) + 1 := by omega
+    rw [this]; simp [unmarshalLoop]
+  rw [hg1]
+  cases hd : decFrames fs with
+  | ok ps =>
+    simp only [bind_ok, List.append_nil]
+    have : ps.length ≠ 0 := by
+      cases fs with
+      | nil => exact absurd rfl hne
+      | cons f fs =>
+        simp only [decFrames] at hd
+        obtain ⟨p, _, hd⟩ := bind_eq_ok.mp hd
+        obtain ⟨qs, _, hd⟩ := bind_eq_ok.mp hd
+        simp at hd; rw [← hd]; simp
+    rw [if_neg this]; rfl
+  | err => rfl
+  | panic => rfl
+  | diverge => rfl
+
+theorem decFrames_append (fa fb : List Bytes) :
+    decFrames (fa ++ fb) = (decFrames fa >>= fun x => decFrames fb >>= fun y => .ok (x ++ y)) := by
+  induction fa with
+  | nil => simp [decFrames]; cases decFrames fb <;> rfl
+  | cons f fa ih =>
+    simp only [List.cons_append, decFrames, ih]
+    cases decFrame f with
+    | ok p =>
+      simp only [bind_ok]
+      cases decFrames fa with
+      | ok ps => simp only [bind_ok, pure_eq]; cases decFrames fb <;> rfl
+      | err => rfl
+      | panic => rfl
+      | diverge => rfl
+    | err => rfl
+    | panic => rfl
+    | diverge => rfl
+
+/-- **Unmarshal(a‖b) = Unmarshal(a) followed by Unmarshal(b)** for concatenations of frames -/
+theorem concat (fa fb : List Bytes) (ha : fa ≠ []) (hb : fb ≠ []) (h1 : ∀ f ∈ fa, IsFrame f) (h2 : ∀ f ∈ fb, IsFrame f) :
+    udec (fa.flatten ++ fb.flatten) = (udec fa.flatten >>= fun x => udec fb.flatten >>= fun y => .ok (x ++ y)) := by
+  have e : fa.flatten ++ fb.flatten = (fa ++ fb).flatten := by simp
+  rw [e, split (fa ++ fb) (by simp [ha]) (by intro f hf; rcases List.mem_append.mp hf with h | h; exact h1 f h; exact h2 f h),
+    split fa ha h1, split fb hb h2, decFrames_append]
+
+/-- **all-or-nothing** -/
+theorem empty_rejected : udec [] = .err := by decide
+
+theorem ok_nonempty {b : Bytes} {ps : List Packet} (h : udec b = .ok ps) : ps ≠ [] := by
+  unfold udec at h
+  obtain ⟨qs, _, h⟩ := bind_eq_ok.mp h
+  split at h
+  · cases h
+  · rename_i hn; simp at h; rw [← h]; intro h0; rw [h0] at hn; simp at hn
+
+/-- a malformed frame anywhere makes the whole datagram fail: no packets are returned -/
+theorem malformed_frame_fails (fa fb : List Bytes) (bad : Bytes) (h1 : ∀ f ∈ fa, IsFrame f) (hb : IsFrame bad)
+    (h2 : ∀ f ∈ fb, IsFrame f) (hbad : ∀ p, decFrame bad ≠ .ok p) : ∀ ps, udec (fa ++ bad :: fb).flatten ≠ .ok ps := by
+  intro ps hps
+  rw [split (fa ++ bad :: fb) (by simp) (by
+    intro f hf
+    rcases List.mem_append.mp hf with h | h
+    · exact h1 f h
+    · rcases List.mem_cons.mp h with h | h
+      · rw [h]; exact hb
+      · exact h2 f h), decFrames_append] at hps
+  obtain ⟨x, _, hps⟩ := bind_eq_ok.mp hps
+  obtain ⟨y, hy, _⟩ := bind_eq_ok.mp hps
+  simp only [decFrames] at hy
+  obtain ⟨p, hp, _⟩ := bind_eq_ok.mp hy
+  exact hbad p hp
+
+/-- trailing octets that do not start a complete frame make the whole datagram fail -/
+theorem trailing_fragment_fails (fs : List Bytes) (tail : Bytes) (h : ∀ f ∈ fs, IsFrame f) (ht : tail ≠ [])
+    (hbad : ∀ r, unmarshalOne tail ≠ .ok r) : ∀ ps, udec (fs.flatten ++ tail) ≠ .ok ps := by
+  intro ps hps
+  unfold udec at hps
+  obtain ⟨qs, hq, _⟩ := bind_eq_ok.mp hps
+  have hl := flatten_len fs h
+  have hgas : (fs.flatten ++ tail).length + 1 = ((fs.flatten ++ tail).length + 1 - fs.length) + fs.length := by rw [List.length_append]; omega
+  rw [hgas, loop_frames fs tail h] at hq
+  obtain ⟨x, _, hq⟩ := bind_eq_ok.mp hq
+  obtain ⟨y, hy, _⟩ := bind_eq_ok.mp hq
+  have hpos : 0 < (fs.flatten ++ tail).length + 1 - fs.length := by rw [List.length_append]; omega
+  obtain ⟨g, hg⟩ : ∃ g, (fs.flatten ++ tail).length + 1 - fs.length = g + 1 := ⟨_, (Nat.succ_pred_eq_of_pos hpos).symm⟩
+  rw [hg, unmarshalLoop] at hy
+  rw [if_neg (by simp; exact ht)] at hy
+  obtain ⟨r, hr, _⟩ := bind_eq_ok.mp hy
+  exact hbad r hr
+
+/-- non-vacuity: a PLI frame followed by a raw frame of unknown type -/
+example : IsFrame [0x81, 206, 0, 2, 0, 0, 0, 1, 0, 0, 0, 2] :=
+  ⟨⟨false, 1, 206, 2⟩, ⟨⟨[0, 0, 0, 1, 0, 0, 0, 2], by decide⟩, by decide, by decide, by decide, by decide⟩⟩
+
 end Rtcp.C06
